@@ -106,6 +106,10 @@ pub struct VSpec {
     pub aw_i: u32,
     pub aw_m: u32,
     pub limit: u64,
+    /// millionths of the venue's borrowed liquidity (Drift: of the cumulative deposit interest) written off before the
+    /// campaign starts: a reserve that socialised a loss may be worth LESS than one underlying token per collateral unit
+    #[serde(default)]
+    pub haircut_ppm: u32,
 }
 
 #[derive(Clone, Debug, Serialize, Deserialize, PartialEq)]
@@ -118,6 +122,8 @@ pub enum VOp {
     Repay { u: u16, amt: u64, rel: u8, all: bool, refresh: bool },
     OrdDeposit { u: u16, b: u16, amt: u64 },
     AccrueVenue { vb: u16, ppm: u32 },
+    /// the venue writes off ppm millionths of its borrowers' debt (the exchange rate FALLS, possibly below par)
+    VenueLoss { vb: u16, ppm: u32 },
     Wait { secs: u32 },
     RefreshVenue { vb: u16, direct: bool },
     Price { b: u16, num: u16, conf_bps: u16 },
@@ -145,6 +151,7 @@ impl VOp {
             VOp::Repay { .. } => "repay",
             VOp::OrdDeposit { .. } => "ord_deposit",
             VOp::AccrueVenue { .. } => "accrue_venue",
+            VOp::VenueLoss { .. } => "venue_loss",
             VOp::Wait { .. } => "wait",
             VOp::RefreshVenue { .. } => "refresh_venue",
             VOp::Price { .. } => "price",
@@ -191,6 +198,12 @@ fn feed_strategy(allow_fixed: bool) -> impl Strategy<Value = FeedSpec> {
 fn decimals_strategy() -> impl Strategy<Value = u8> {
     prop_oneof![4 => Just(6u8), 3 => Just(9u8), 1 => Just(8u8)]
 }
+/// venue mints: the usual 6 / 8 / 9 plus a labelled minority of unusual decimals (0-5, 7, 10-12). For Drift banks a mint
+/// with more than 9 decimals means one booked (9-decimal scaled) unit is worth 10^(d-9) native units, i.e. the region in
+/// which whole-unit rounding of the conversion is coarser than the token itself and the deposit limit must be scaled DOWN.
+fn venue_decimals_strategy() -> impl Strategy<Value = u8> {
+    prop_oneof![8 => Just(6u8), 6 => Just(9u8), 2 => Just(8u8), 1 => 0u8..=5, 1 => Just(7u8), 3 => 10u8..=12]
+}
 
 fn ord_strategy() -> impl Strategy<Value = OrdSpec> {
     (decimals_strategy(), 0u8..2, feed_strategy(true), 0u32..=1_000_000, 0u32..=400_000, 0u32..500_000, 0u32..500_000).prop_map(|(decimals, token, feed, aw_i, gap, lx, lgap)| {
@@ -201,19 +214,20 @@ fn ord_strategy() -> impl Strategy<Value = OrdSpec> {
 
 fn venue_strategy() -> impl Strategy<Value = VSpec> {
     (
-        (0u8..3, decimals_strategy(), 0u8..2, feed_strategy(false)),
+        (0u8..3, venue_decimals_strategy(), 0u8..2, feed_strategy(false)),
         (prop_oneof![1 => Just(0u32), 5 => 0u32..=600_000], 7u8..=15, any::<u32>()),
         (prop_oneof![1 => Just(0u32), 6 => 100_000u32..=1_000_000], 0u32..=400_000),
         // deposit limit: none / whole tokens / tight native amounts
         prop_oneof![5 => Just((0u8, 0u64)), 3 => (Just(1u8), 1u64..2_000_000), 2 => (Just(2u8), 1u64..100_000)],
+        prop_oneof![6 => Just(0u32), 1 => 1u32..1000, 2 => 1000u32..=1_000_000],
     )
-        .prop_map(|((kind, decimals, token, feed), (rate_ppm, scale_exp, ragged), (aw_i, gap), (lk, lx))| {
+        .prop_map(|((kind, decimals, token, feed), (rate_ppm, scale_exp, ragged), (aw_i, gap), (lk, lx), haircut_ppm)| {
             let limit = match lk {
                 0 => u64::MAX,
                 1 => lx.saturating_mul(10u64.pow(decimals as u32)),
                 _ => lx,
             };
-            VSpec { kind, decimals, token, feed, rate_ppm, scale_exp, ragged, aw_i, aw_m: aw_i + gap, limit }
+            VSpec { kind, decimals, token, feed, rate_ppm, scale_exp, ragged, aw_i, aw_m: aw_i + gap, limit, haircut_ppm }
         })
 }
 
@@ -266,6 +280,7 @@ pub fn op_strategy(fam: &'static str, level: u8) -> BoxedStrategy<VOp> {
         (w(4, &["c03"], 0), (i(), prop_oneof![1 => Just(0u32), 3 => 1u32..1000, 3 => 1000u32..100_000, 1 => 100_000u32..400_000]).prop_map(|(vb, ppm)| VOp::AccrueVenue { vb, ppm }).boxed()),
         (w(4, &["c04"], 0), (i(), prop_oneof![3 => 500u16..1000, 1 => Just(1000u16), 3 => 1000u16..2000, 1 => 10u16..500], prop_oneof![2 => Just(0u16), 3 => 1u16..100, 2 => 100u16..300]).prop_map(|(b, num, conf_bps)| VOp::Price { b, num, conf_bps }).boxed()),
     ];
+    v.push((w(2, &["c03", "c04"], 1), (i(), prop_oneof![2 => 1u32..1000, 3 => 1000u32..100_000, 3 => 100_000u32..=1_000_000]).prop_map(|(vb, ppm)| VOp::VenueLoss { vb, ppm }).boxed()));
     v.push((w(4, &[], 1), (i(), amt_rel(), prop::bool::weighted(0.3), refresh()).prop_map(|(u, (amt, rel), all, refresh)| VOp::Repay { u, amt, rel, all, refresh }).boxed()));
     v.push((w(3, &[], 1), (i(), i(), abs_amount()).prop_map(|(u, b, amt)| VOp::OrdDeposit { u, b, amt }).boxed()));
     v.push((w(3, &["c17"], 2), (i(), amt_rel()).prop_map(|(vb, (amt, rel))| VOp::Limit { vb, amt, rel }).boxed()));
@@ -504,6 +519,22 @@ impl Runner {
                     vd::add_bank_ext(&mut w, &bs, &opts)?
                 }
             };
+            if v.haircut_ppm > 0 {
+                match v.kind {
+                    1 => {
+                        let vb = vk::venue_bank(&w, bi);
+                        vk::loss(&mut w.vm, &vb, v.haircut_ppm as u64)
+                    }
+                    2 => {
+                        let vb = vs::venue(&w, bi);
+                        vs::loss(&mut w.vm, &vb, v.haircut_ppm as u64)
+                    }
+                    _ => {
+                        let vb = vd::venue(&w, bi);
+                        vd::loss(&mut w.vm, &vb, v.haircut_ppm as u64)
+                    }
+                }
+            }
             while kind.len() < bi {
                 kind.push(None);
             }
@@ -694,6 +725,22 @@ impl Runner {
             _ => {
                 let v = vd::venue(&self.w, bi);
                 vd::accrue(&mut self.w.vm, &v, ppm);
+            }
+        }
+    }
+    fn loss_venue(&mut self, bi: usize, ppm: u64) {
+        match self.kind[bi] {
+            Some(1) => {
+                let v = vk::venue_bank(&self.w, bi);
+                vk::loss(&mut self.w.vm, &v, ppm)
+            }
+            Some(2) => {
+                let v = vs::venue(&self.w, bi);
+                vs::loss(&mut self.w.vm, &v, ppm)
+            }
+            _ => {
+                let v = vd::venue(&self.w, bi);
+                vd::loss(&mut self.w.vm, &v, ppm)
             }
         }
     }
@@ -1038,6 +1085,16 @@ impl Runner {
         }
     }
 
+    /// label suffix for the unusual mint decimals (the usual 6 / 8 / 9 get none)
+    fn dec_class(&self, bi: usize) -> &'static str {
+        match self.w.banks[bi].decimals {
+            0..=5 => ":dec<6",
+            7 => ":dec7",
+            10.. => ":dec>9",
+            _ => "",
+        }
+    }
+
     fn op_vdeposit(&mut self, u: u16, vb: u16, amt: u64, rel: u8, refresh: bool, signer: u8, st: &mut Stats) {
         // worlds with 9-10 venue banks exist for the integration-position cap: there, half of the deposits go to user 0
         // and three quarters of the deposits open the first venue bank the account does not hold yet
@@ -1084,7 +1141,7 @@ impl Runner {
         let pre_w = if expired { Some(self.w.clone()) } else { None };
         let what = format!("{kn}_deposit({amount}) into bank #{bi} signed by {}", ["the authority", "another user", "a stranger", "nobody (authority key, signature bit cleared)", "the group admin"][signer.min(4) as usize]);
         let (ok, err) = self.exec(&ixs);
-        st.label(&format!("{}:vdeposit:{kn}", if ok { "ok" } else { "fail" }));
+        st.label(&format!("{}:vdeposit:{kn}{}", if ok { "ok" } else { "fail" }, self.dec_class(bi)));
         // ---- C08
         let unauthorized = matches!(signer, 1 | 2 | 3) || (signer == 4 && !frozen) || (signer == 0 && frozen);
         if signer != 0 || frozen {
@@ -1204,7 +1261,7 @@ impl Runner {
         let pre_w = if expired || tracked == 2 { Some(self.w.clone()) } else { None };
         let what = format!("{kn}_withdraw({}) from bank #{bi} signed by {}", if all { "all".to_string() } else { amount.to_string() }, ["the authority", "another user", "a stranger", "nobody (authority key, signature bit cleared)", "the group admin"][signer.min(4) as usize]);
         let (ok, err) = self.exec(&ixs);
-        st.label(&format!("{}:vwithdraw{}:{kn}", if ok { "ok" } else { "fail" }, if all { "_all" } else { "" }));
+        st.label(&format!("{}:vwithdraw{}:{kn}{}", if ok { "ok" } else { "fail" }, if all { "_all" } else { "" }, self.dec_class(bi)));
         // ---- C08
         let unauthorized = matches!(signer, 1 | 2 | 3) || (signer == 4 && !frozen) || (signer == 0 && frozen);
         if signer != 0 || frozen {
@@ -1400,6 +1457,14 @@ impl Runner {
         st.label(&format!("ok:accrue_venue:{}", self.kind_name(bi)));
     }
 
+    fn op_loss(&mut self, vb: u16, ppm: u32, st: &mut Stats) {
+        let bi = self.venues[idx(vb, self.venues.len())];
+        self.loss_venue(bi, ppm as u64);
+        let (rate, _, _) = self.share_rate(&self.w.vm, bi);
+        let par = if self.kind[bi] == Some(0) { pow10(self.w.banks[bi].decimals as u32) / pow10(9) } else { q_one() };
+        st.label(&format!("ok:venue_loss:{}:{}", self.kind_name(bi), if rate < par { "below-par" } else { "at-or-above-par" }));
+    }
+
     fn set_price_scaled(&mut self, bi: usize, num_pm: u64, conf_bps: u16) {
         let f = self.feeds[bi].clone();
         let mant = ((self.base_mant[bi] as i128 * num_pm as i128) / 1000).clamp(1, i64::MAX as i128 / 4) as i64;
@@ -1560,6 +1625,7 @@ impl Runner {
             VOp::Repay { u, amt, rel, all, refresh } => self.op_repay(*u, *amt, *rel, *all, *refresh, st),
             VOp::OrdDeposit { u, b, amt } => self.op_ord_deposit(*u, *b, *amt, st),
             VOp::AccrueVenue { vb, ppm } => self.op_accrue(*vb, *ppm, st),
+            VOp::VenueLoss { vb, ppm } => self.op_loss(*vb, *ppm, st),
             VOp::Wait { secs } => self.op_wait(*secs, st),
             VOp::RefreshVenue { vb, direct } => self.op_refresh(*vb, *direct, st),
             VOp::Price { b, num, conf_bps } => self.op_price(*b, *num, *conf_bps, st),
